@@ -23,11 +23,19 @@ def base_scenario(rng, tables, nthreads=None, nlooms=None, models=("ovni",)):
         s.looms[n] = [(i, phy[i] + (10 if n == "lb" else 0)) for i in range(ncpu)]
     nthreads = nthreads or rng.range(1, 4)
     tid = 100
+    # TIDs are only unique per node: with two looms, sometimes reuse the TIDs of the first loom in the second
+    reuse = nlooms == 2 and rng.chance(1, 2)
     for i in range(nthreads):
         loom = rng.choice(names) if i >= len(names) else names[i]
         pid = 10 + rng.below(2) + (50 if loom == "lb" else 0)
         tid += rng.range(1, 3)
-        s.threads.append({"loom": loom, "pid": pid, "tid": tid})
+        mytid = tid
+        if reuse and loom == "lb":
+            taken = [t["tid"] for t in s.threads if t["loom"] == "lb"]
+            cands = [t["tid"] for t in s.threads if t["loom"] == "la" and t["tid"] not in taken]
+            if cands:
+                mytid = rng.choice(cands)
+        s.threads.append({"loom": loom, "pid": pid, "tid": mytid})
     return s
 
 
